@@ -123,21 +123,36 @@ Definition bulk_update (e : env) (t : table) (us : list upd) : table :=
 Definition max_id (t : table) : Z := fold_left Z.max (ids_of t) 0.
 Definition next_row_id (t : table) : Z := max_id t + 1.
 Definition row_limit := 1000000.
-(* one step of the id-filling loop: explicit id (raw value of 'id' or absent) -> id *)
-Definition alloc_one (next : Z) (x : option val) : option Z :=
+(* what an entry of the row-id list asks for (raw value of 'id', or absent) *)
+Inductive idreq := IAuto | IExplicit (n : Z) | IBad.
+Definition kind (x : option val) : idreq :=
   match x with
-  | None | Some VNone => Some next
-  | Some (VInt n) => if n <? 0 then Some next else if n >? row_limit then None else Some n
-  | Some (VText _) => None                                   (* TypeError on `row_id < 0` *)
+  | None | Some VNone => IAuto
+  | Some (VInt n) => if n <? 0 then IAuto else if n >? row_limit then IBad (* Row ID too high *) else IExplicit n
+  | Some (VText _) => IBad                                   (* TypeError on `row_id < 0` *)
   end.
-Fixpoint alloc (next : Z) (xs : list (option val)) : option (list Z) :=
+Definition is_bad (x : option val) : bool := match kind x with IBad => true | _ => false end.
+(* first pass: explicit ids must be positive and must not repeat *)
+Fixpoint validate (seen : list Z) (xs : list (option val)) : bool :=
   match xs with
-  | [] => Some []
-  | x :: t => match alloc_one next x with
-              | None => None
-              | Some i => match alloc (Z.max next i + 1) t with None => None | Some l => Some (i :: l) end
+  | [] => true
+  | x :: t => match kind x with
+              | IExplicit n => negb (n =? 0) && negb (memz n seen) && validate (n :: seen) t
+              | _ => validate seen t
               end
   end.
+(* automatic ids start above every existing and every explicitly requested id *)
+Definition start_id (next : Z) (xs : list (option val)) : Z :=
+  fold_left (fun a x => match kind x with IExplicit n => Z.max a (n + 1) | _ => a end) xs next.
+(* second pass *)
+Fixpoint fill (next : Z) (xs : list (option val)) : list Z :=
+  match xs with
+  | [] => []
+  | x :: t => match kind x with IExplicit n => n :: fill next t | _ => next :: fill (next + 1) t end
+  end.
+Definition alloc (next : Z) (xs : list (option val)) : option (list Z) :=
+  if existsb is_bad xs then None
+  else if validate [] xs then Some (fill (start_id next xs) xs) else None.
 
 Definition row_exists (t : table) (i : Z) : bool := (0 <? i) && memz i (ids_of t).   (* RowIDs.__contains__ *)
 (* Engine.add_records for one row: id 0 is not a row; an id already present is overwritten *)
@@ -268,8 +283,9 @@ Definition rows_of (len : nat) (require col_values : kv) : list inrow :=
 (* values of a record created for an input row: the settable require cells, overridden by col_values *)
 Definition add_values (e : env) (r : inrow) : cells := filter (fun p => settable e (fst p)) (fst r) ++ snd r.
 
-(* Rows are carried out one after the other on the evolving table `cur`; `next` is the running counter of the
-   id-filling policy.  A new record needs an id that is positive and not in use. *)
+(* Rows are carried out one after the other on the evolving table `cur`; `next` is the next automatic row id
+   (automatic ids start above every existing and every explicitly requested id, see ref_core).  A new record
+   needs an id that is positive and not in use. *)
 Fixpoint ref_run (e : env) (t0 : table) (o : options) (cur : table) (next : Z) (rows : list inrow)
   : res (table * list resolved) :=
   match rows with
@@ -284,11 +300,13 @@ Fixpoint ref_run (e : env) (t0 : table) (o : options) (cur : table) (next : Z) (
           | Ok (t', l) => Ok (t', RUpdate ids :: l) | Err x => Err x end
       | OAdd =>
           let values := add_values e r in
-          match alloc_one next (dget id_col values) with
-          | None => Err EEnv
-          | Some i =>
+          match kind (dget id_col values) with
+          | IBad => Err EEnv
+          | k =>
+              let i := match k with IExplicit n => n | _ => next end in
+              let next' := match k with IExplicit _ => next | _ => next + 1 end in
               if (0 <? i) && negb (memz i (ids_of cur)) then
-                match ref_run e t0 o (cur ++ [(i, new_cells e (drop_id values))]) (Z.max next i + 1) rest with
+                match ref_run e t0 o (cur ++ [(i, new_cells e (drop_id values))]) next' rest with
                 | Ok (t', l) => Ok (t', RAdd i :: l) | Err x => Err x end
               else Err EEnv
           end
@@ -323,12 +341,20 @@ Definition arg_error (require col_values : kv) (o : options) : option error :=
 
 Definition is_nothing (x : outcome) : bool := match x with ONothing => true | _ => false end.
 
+(* all update entries / explicit ids of new records the input rows ask for, in input order *)
+Definition ref_upds (e : env) (t : table) (o : options) (rows : list inrow) : list upd :=
+  flat_map (fun r => match ref_outcome e t o (fst r) with
+                     | OUpdate ids => map (fun i => (i, snd r)) ids | _ => [] end) rows.
+Definition ref_explicit (e : env) (t : table) (o : options) (rows : list inrow) : list (option val) :=
+  flat_map (fun r => match ref_outcome e t o (fst r) with
+                     | OAdd => [dget id_col (add_values e r)] | _ => [] end) rows.
+
 Definition ref_core (e : env) (t : table) (require col_values : kv) (o : options) (len : nat)
   : res (table * retval) :=
   let rows := rows_of len require col_values in
   if negb (forallb (fun r => is_nothing (ref_outcome e t o (fst r))) rows)
      && negb (forallb (fun p => writable e (fst p)) col_values) then Err EEnv else
-  match ref_run e t o t (next_row_id t) rows with
+  match ref_run e t o t (start_id (next_row_id t) (ref_explicit e t o rows)) rows with
   | Err x => Err x
   | Ok (t', l) => Ok (t', ret_of l)
   end.
@@ -359,15 +385,7 @@ Definition ref_single (e : env) (t : table) (require col_values : cells) (o : op
               end)
   end.
 
-(* ---------- the two situations in which the code is known to deviate (see Props/C28.v) ---------- *)
-(* all update entries / explicit ids of new records the input rows ask for, in input order *)
-Definition ref_upds (e : env) (t : table) (o : options) (rows : list inrow) : list upd :=
-  flat_map (fun r => match ref_outcome e t o (fst r) with
-                     | OUpdate ids => map (fun i => (i, snd r)) ids | _ => [] end) rows.
-Definition ref_explicit (e : env) (t : table) (o : options) (rows : list inrow) : list (option val) :=
-  flat_map (fun r => match ref_outcome e t o (fst r) with
-                     | OAdd => [dget id_col (add_values e r)] | _ => [] end) rows.
-
+(* ---------- the situation in which the code is known to deviate (see Props/C28.v) ---------- *)
 Fixpoint last_for (i : Z) (us : list upd) : option upd :=
   match us with
   | [] => None
@@ -378,19 +396,10 @@ Definition stale_free (e : env) (t : table) (us : list upd) : bool :=
   forallb (fun u => implb (changed e t u)
                           (match last_for (fst u) us with Some l => changed e t l | None => true end)) us.
 Fixpoint nodupb (l : list Z) : bool := match l with [] => true | x :: t => negb (memz x t) && nodupb t end.
-(* the ids given to the new records are positive and pairwise different *)
-Definition ids_clean (t : table) (xs : list (option val)) : bool :=
-  match alloc (next_row_id t) xs with None => true | Some ids => forallb (fun i => 0 <? i) ids && nodupb ids end.
-
 Definition no_stale_update (e : env) (t : table) (require col_values : kv) (o : options) : bool :=
   match common_length (all_lists require col_values) with
   | Some len => stale_free e t (ref_upds e t o (rows_of len require col_values))
   | None => true end.
-Definition new_ids_clean (e : env) (t : table) (require col_values : kv) (o : options) : bool :=
-  match common_length (all_lists require col_values) with
-  | Some len => ids_clean t (ref_explicit e t o (rows_of len require col_values))
-  | None => true end.
-
 (* for the correspondence cases: tables in row-id order, finite conversion tables *)
 Fixpoint insert_row (r : row) (l : table) : table :=
   match l with [] => [r] | q :: t => if fst r <=? fst q then r :: l else q :: insert_row r t end.
